@@ -929,6 +929,9 @@ class LTLayoutContainer(LTContainer[LTComponent]):
                     return (1, -box.y0, box.x0)
 
             textboxes.sort(key=getkey)
+            # number the boxes in output order, as the grouped branch does
+            for index, textbox in enumerate(textboxes):
+                textbox.index = index
         else:
             self.groups = self.group_textboxes(laparams, textboxes)
             assigner = IndexAssigner()
